@@ -125,7 +125,7 @@ Qed.
 (* a non-trivial reachable state: a text span cut by a character next to a masked cell, inside
    a save bracket; it meets the invariant, and balanced inner programs exist *)
 Definition nonvac_prog : list rbop :=
-  [OTextAt 0 0 [65; 66; 67; 68]; OMask (mkRect 0 1 1 1); OSave; OSetPen (Some (mkPen (Some 1) None None None)); OCharAt 0 2 120].
+  [OTextAt 0 0 [65; 66; 67; 68]; OMask (mkRect 0 1 1 1); OSave; OSetPen (Some (pen_fg 1)); OCharAt 0 2 120].
 
 Example nonvacuous :
   exists s v, run (rb_new 2 6) nonvac_prog = Ok (s, v) /\ Inv s /\ wf_rbb s = true /\
